@@ -236,6 +236,8 @@ def run_scenario(sc, chooser=None, seed=0, max_steps=3000, rewait_limit=12):
                "(no state change, no timeout, no enter/exit): %d wait() calls, %d steps" % (stuck, st["wait_calls"], sched.steps))
         sig = "C20/two-or-more-waiters-on-one-lock" if n_wait >= 2 else "C20/single-waiter-spins"
         known.append({"msg": msg, "signature": sig})
+    for who, name, clock in sched.timed_wakeups:
+        viol.append("C20: thread %s came back from a timed acquire of %s although nothing had happened (polling instead of parking)" % (who, name))
     for vt in sched.vts:
         if vt.exc is not None and not isinstance(vt.exc, Boom):
             viol.append("unexpected exception in %s: %r" % (vt.name, vt.exc))
